@@ -204,9 +204,58 @@ def generated(tier, ev, fnd):
            traces_validated_against_impl=n)
 
 
+def layout_variants(tier, ev, fnd):
+    """header spellings AppArmor accepts besides the project's usual one: flag lists separated by blanks or `, `, no blank or a
+    tab before the brace, no `profile` keyword. Judged with a tolerant header reader of the harness and the reference
+    parser (the output must still load and say the right mode)."""
+    import re
+    from .. import dfax
+    bins = gox.build(os.path.join(C.scratch(), 'gox'), ['applyx'])
+    heads = []
+    for start in ('profile main /usr/bin/foo', 'profile main', '/usr/bin/foo'):
+        for flags in ('', 'flags=(complain)', 'flags=(attach_disconnected,complain)', 'flags=(attach_disconnected complain)', 'flags=(attach_disconnected, complain)',
+                      'flags=(complain, attach_disconnected)', 'flags=(attach_disconnected)'):
+            for brace in (' {', '{', '\t{', '  {'):
+                if not flags and brace == '{':
+                    continue            # `name{` is not a header: the brace would belong to the name
+                heads.append(start + (' ' + flags if flags else '') + brace)
+    texts = ['abi <abi/3.0>,\n\n%s\n  /usr/bin/foo mr,\n\n  profile sub {\n    /bin/x r,\n  }\n}\n' % h for h in heads]
+
+    def read(line):
+        m = re.search(r'flags\s*=\s*\(([^)]*)\)', line)
+        fl_ = [x for x in re.split(r'[,\s]+', m.group(1)) if x] if m else []
+        rest = re.sub(r'flags\s*=\s*\([^)]*\)', ' ', line).replace('{', ' ').split()
+        return fl_, rest
+    n = 0
+    for mode in ('complain', 'enforce'):
+        res = gox.jsonl(bins['applyx'], [{'op': 'builder:' + mode, 'text': t, 'file': 'main'} for t in texts], env={'DISTRIBUTION': 'arch'})
+        for h, t, r in zip(heads, texts, res):
+            n += 1
+            sig = 'layout-variant mode=%s header=%s' % (mode, h.replace('\t', '<TAB>'))
+            if r.get('panic') or r.get('err'):
+                fnd.report(sig + ' fails', 'builder %s fails on header `%s`: %s' % (mode, h, r.get('panic') or r.get('err')), {'text': t}); continue
+            out = r['out']
+            lines = [l for l in out.split('\n') if l.rstrip().endswith('{') and not l.lstrip().startswith('#')]
+            if len(lines) != 2:
+                fnd.report(sig + ' structure', 'builder %s on header `%s`: %d block headers in the output instead of 2: %s' % (mode, h, len(lines), lines), {'text': t, 'out': out}); continue
+            for src, got in ((h, lines[0]), ('  profile sub {', lines[1])):
+                f0, r0 = read(src); f1, r1 = read(got)
+                want = sorted(set(f0) - {'complain'}) + (['complain'] if mode == 'complain' else [])
+                if sorted(f1) != sorted(want) or r0 != r1:
+                    fnd.report(sig, 'builder %s turns header `%s` into `%s`: flags %s, expected %s; rest of the header %s vs %s' % (mode, src.strip(), got.strip(), f1, want, r1, r0), {'text': t, 'out': out})
+                    break
+            else:
+                b, err = dfax.compile_text(out, C.UPSTREAM)
+                if b is None:
+                    fnd.report(sig + ' rejected', 'builder %s on header `%s`: the reference parser rejects the output (%s): `%s`' % (mode, h, err, lines[0].strip()), {'text': t, 'out': out})
+    ev.add(transitions=n, layout_variant_headers=len(heads))
+    ev.sample({'layout_variant': heads[9].replace('\t', '<TAB>')})
+
+
 def run(tier):
     ev = C.Evidence(PROP, tier); fnd = C.Findings(PROP)
     generated(tier, ev, fnd)
+    layout_variants(tier, ev, fnd)
     real(tier, ev, fnd)
     ev.add(traces_validated_against_impl=ev.cov['real_blocks_compared'])
     ev.add(rule='state = one build tree / one generated profile text; transition = one block header compared between the none build and the complain or enforce build of the same input')
